@@ -34,7 +34,7 @@ PROPS = {
         "assumptions": ["acceptance of every well-typed program and correctness of type equality itself are not decided"],
     },
     "C20": {
-        "rules": [runtime.rule_cint, runtime.rule_template, runtime.rule_ret, abi.rule_abi("x86_64"), abi.rule_abi("aarch64")],
+        "rules": [runtime.rule_cint, runtime.rule_template, runtime.rule_ret, abi.rule_abi("x86_64"), abi.rule_abi("aarch64"), sharing.rule_deffirst],
         "text": "Runtime contract decided on the C sources and the generator: (R-CINT) interval abstract interpretation of print_i64/"
                 "println_i64 from clang's AST for the whole int64_t range - no undefined behaviour, every store inside the buffer and "
                 "a digit/'-'/newline, termination, write() covers exactly the stored characters; (R-TEMPLATE) every replace-needle of "
